@@ -158,6 +158,7 @@ def one_case(ctx, rng, nodes, edges, aliases, extra_kw, spacing):
 
 
 def run(ctx: Ctx):
+    rules.MEMBER_SPELLING = True
     n = 1500 if ctx.quick else 40000
     wire, refs = [], []
     for i in range(n):
